@@ -275,7 +275,9 @@ class Spec(PropSpec):
     subsys = "NetPure"
     props_file = "C17.v"
     coq_targets = ["C17.vo"]
-    theorems = ["c17_placeholder"]
+    theorems = ["bind_ok_iff", "overlap_is_the_conflict_check", "port0_free_everywhere", "port0_none_iff_exhausted",
+                "port0_first_free_from_cursor", "close_frees", "udp_demux", "tcp_demux_rule", "fabric_route",
+                "egress_keeps_local_traffic_inside", "c17_nonvacuous"]
     consts = NETPURE_CONSTS
     anchors = ANCHORS
     harness_bins = ["netsock"]
